@@ -65,3 +65,30 @@ package client
 //@   modifies f.epoch, f.alo, f.amid, f.ahi, f.alolo, f.ahihi, f.navg
 //@   ensures count: 1.0 <= f.navg && f.navg <= 21.0
 //@   ensures raw: f.navg <= 3.0 ==> offset == timemath.Inv(timemath.Duration((cTxTime.Sub(sRxTime).Seconds()+cRxTime.Sub(sTxTime).Seconds())/2))
+
+// ---- the IP client: one measurement = one request and the datagrams received for it ----
+// lastsent() is the request as written to the socket, lastpkt() the datagram the function last read. Without NTS
+// (precondition) a measurement succeeds only on a datagram that is an acceptable NTP response and echoes the
+// request: its origin timestamp (bytes 24..31) equals the request's transmit timestamp (bytes 40..47) or, for a
+// request sent in interleaved mode, the request's receive timestamp (bytes 32..39).
+//@ pred echoes(p, q, off) = forall(k, 0, 8, p[24+k] == q[off+k])
+//@ pred acceptable(p) = (len(p) >= 48 && p[0]&7 == 4 && ((p[0]>>3)&7 == 3 || (p[0]>>3)&7 == 4) && p[0]>>6 != 3 && 1 <= p[1] && p[1] <= 15)
+
+//@ func (*IPClient).measureClockOffsetIP
+//@   noframe
+//@   requires c != nil && mtrcs != nil && localAddr != nil && remoteAddr != nil && c.Log != nil
+//@   requires !c.Auth.Enabled
+// The four timestamps handed to the offset formula belong to one exchange: in basic mode the request's own transmit
+// and the response's own receive time with the two server timestamps of that response; in interleaved mode (the
+// response's origin equals the receive timestamp of the previous exchange that the request carried) the previous
+// exchange's client timestamps and server receive timestamp with the transmit timestamp the server now reports for it.
+//@   loop 0 invariant calls("ntp.ClockOffset") == 0
+//@   loop 0 invariant c.prev.cTxTime == before(c.prev.cTxTime) && c.prev.cRxTime == before(c.prev.cRxTime) && c.prev.sRxTime == before(c.prev.sRxTime)
+//@   callsite ntp.ClockOffset 0 requires same(t2, sTxTime) && (interleavedResp ==> interleavedReq && ntpresp.OriginTime == c.prev.cRxTime)
+//@   callsite ntp.ClockOffset 0 requires !interleavedResp ==> same(t0, cTxTime1) && same(t1, sRxTime) && same(t3, cRxTime) && ntpresp.OriginTime == ntpreq.TransmitTime
+//@   callsite ntp.ClockOffset 0 requires interleavedResp ==> same(t0, ntp.TimeFromTime64(c.prev.cTxTime, cTxTime0)) && same(t1, ntp.TimeFromTime64(c.prev.sRxTime, cTxTime0)) && same(t3, ntp.TimeFromTime64(c.prev.cRxTime, cTxTime0))
+//@   ensures reported: err == nil && c.Filter == nil ==> calls("ntp.ClockOffset") == 1
+//@   ensures accepted: err == nil ==> acceptable(lastpkt())
+//@   ensures sentlen: err == nil ==> len(lastsent()) == 48
+//@   ensures origin: err == nil && !c.InterleavedMode ==> echoes(lastpkt(), lastsent(), 40)
+//@   ensures origini: err == nil && c.InterleavedMode ==> echoes(lastpkt(), lastsent(), 40) || echoes(lastpkt(), lastsent(), 32)
